@@ -107,6 +107,24 @@ def scenarios():
         r.object_store.add_objects(objs)
     S["add_objects(pack)"] = add_objects_pack
 
+    def repack_same_set(r):
+        # the objects of an existing pack are packed AGAIN, in another order, by a process whose pack cache is cold
+        # (a re-run of an interrupted fetch, a second writer): the pack name is the same, the bytes are not
+        from dulwich.repo import Repo
+        other = Repo(r.path)
+        try:
+            packs = list(other.object_store.packs)
+            if packs:
+                pk = max(packs, key=len)
+                objs = [pk[sha] for sha in pk.index]
+            else:
+                objs = [other.object_store[sha] for sha in sorted(other.object_store)]
+        finally:
+            other.close()
+        objs.sort(key=lambda o: (o.type_num, o.id), reverse=True)
+        r.object_store.add_objects([(o, None) for o in objs])
+    S["add_objects(same set again, cold cache)"] = repack_same_set
+
     def add_thin_pack(r):
         sys.path.insert(0, REPO)
         from io import BytesIO
@@ -811,10 +829,19 @@ def run(ctx):
         if not ctx.quick:
             excs.append(("EIO", lambda: OSError(errno.EIO, "injected")))
         stride = ctx.pick(3 if ncalls < 100 else 7, 1)
+        # an fsync that FAILS must not be taken for durability: EIO at every fsync of the operation, then the power-loss
+        # variant of what is left (whether the operation reported the error or not)
+        fsync_ks = {e["k"] for e in rec.world.events if e.get("op") == "fsync" and e.get("k") is not None} if fsync else set()
+        eio = ("EIO", lambda: OSError(errno.EIO, "injected"))
         for k in range(0, ncalls, 1):
+            kexcs = excs
             if ctx.quick and (k + tid) % stride:
-                continue
-            for ename, mk in excs:
+                if k not in fsync_ks:
+                    continue
+                kexcs = [eio]
+            elif k in fsync_ks and ctx.quick:
+                kexcs = excs + [eio]
+            for ename, mk in kexcs:
                 fr = Recording(ctx, name, S[name], layout, fsync, fault=sched.Fault(0, k, mk()))
                 fr.run()
                 verdict = recover(fr.work, pre_refs, post_refs, pre_objs)
@@ -828,6 +855,28 @@ def run(ctx):
                     ctx.violation(f"{site}|{clause}|{scen} mode=exception:{ename} at={re.sub(r'[0-9a-f]{38,40}', '<sha>', at)}",
                                   f"{ename} at call {k} [{at}] of {name} ({scen}) leaves an inconsistent repository: {verdict}",
                                   {"scenario": name, "layout": layout, "fsync": fsync, "k": k, "mode": "exception", "exc": ename, "event": at, "verdict": verdict})
+                elif fired and fired.get("op") == "fsync" and ename == "EIO":
+                    inomap = {}
+                    for dp, dn, fn in os.walk(fr.work):
+                        for f_ in fn:
+                            full = os.path.join(dp, f_)
+                            try:
+                                inomap[os.path.relpath(full, fr.work)] = os.lstat(full).st_ino
+                            except OSError:
+                                pass
+                    pv = fr.power_variant(fr.work, inomap, f"f{k}")
+                    if pv:
+                        v3 = recover(pv[0], pre_refs, post_refs, pre_objs)
+                        ctx.count()
+                        nsnap += 1
+                        ctx.nontrivial((name, layout, fsync, "fsyncfail+power", k))
+                        if v3 is not None:
+                            clause = v3.split(":")[0]
+                            outcome = "raised" if fr.result.exc else "reported success"
+                            ctx.violation(f"{site}|{clause}|{scen} mode=fsync-failed+powerloss({outcome}) at={re.sub(r'[0-9a-f]{38,40}', '<sha>', at)}",
+                                          f"fsync failed (EIO) at call {k} [{at}] of {name} ({scen}), the operation {outcome}, then power was lost "
+                                          f"(files {pv[1]} keep only their durable data): {v3}",
+                                          {"scenario": name, "layout": layout, "fsync": fsync, "k": k, "mode": "fsyncfail", "event": at, "verdict": v3})
                 fr.cleanup()
         ctx.log(f"{name} {scen}: {len(states)} crash states, {ncalls} exception points")
     ctx.validated(nsnap)
